@@ -218,6 +218,38 @@ func checkC09(c *Ctx) {
 				fresh = true
 			}
 		}
+		if !fresh && inLoop(call.Block()) {
+			// the path travels inside a per-root walk state: an object built in the loop one of whose fields is the
+			// result of a newSearchPath() call made in the loop (and nothing else)
+			for _, a := range call.Call.Args {
+				al, isA := a.(*ssa.Alloc)
+				if !isA || !inLoop(al.Block()) || al.Referrers() == nil {
+					continue
+				}
+				for _, ref := range *al.Referrers() {
+					fa, isF := ref.(*ssa.FieldAddr)
+					if !isF || fa.Referrers() == nil {
+						continue
+					}
+					if p, ok := fa.Type().(*types.Pointer); !ok || !strings.Contains(p.Elem().String(), "engine.searchPath") {
+						continue
+					}
+					n, okAll := 0, true
+					for _, r2 := range *fa.Referrers() {
+						if st, isS := r2.(*ssa.Store); isS && st.Addr == ssa.Value(fa) {
+							n++
+							mk, isC := st.Val.(*ssa.Call)
+							if !isC || mk.Call.StaticCallee() != newSP || !inLoop(mk.Block()) {
+								okAll = false
+							}
+						}
+					}
+					if n > 0 && okAll {
+						fresh = true
+					}
+				}
+			}
+		}
 		r.Ob("FRESH-PATH", "EngineCallRefLinkAndCheck -> "+callee.Name(), t.Pos(call.Pos()), fresh, "each root's DFS must start from a search path created inside the per-root loop")
 	})
 	r.Floor("FRESH-PATH", 1)
